@@ -16,14 +16,15 @@ namespace Firefly.Spin
 open Firefly.Gen.C08
 
 /-- the phase an instruction of `archAcquireSpinlock` leads to -/
-theorem asmStep_phase (cfg : Config) (sh : Shared) (t : Thread) (m : Method) (rpc pc : Nat) hv :
+theorem asmStep_phase (cfg : Config) (sh : Shared) (t : Thread) (m : Method) (rpc pc : Nat) hv
+    (hph : t.ph = .asm m rpc pc) :
     (asmStep cfg sh t m rpc pc hv).2.ph = .fault ∨
     (∃ pc', (asmStep cfg sh t m rpc pc hv).2.ph = .asm m rpc pc') ∨
     (asmStep cfg sh t m rpc pc hv).2.ph = .go m (rpc + 1) := by
   unfold asmStep
   simp only []
   repeat' split
-  all_goals simp [faulted]
+  all_goals simp [faulted, hph]
 
 /-- `ch` executes the next instruction of the running method -/
 def Choice.isRun : Choice → Bool
@@ -63,7 +64,7 @@ theorem run_phase (cfg : Config) (sh sh' : Shared) (t t' : Thread) (ch : Choice)
       · exact ⟨_, h.symm⟩
     obtain ⟨hv, he⟩ := hshape
     constructor
-    · have hp := asmStep_phase cfg sh t .acquire 0 pc hv
+    · have hp := asmStep_phase cfg sh t .acquire 0 pc hv hph
       rw [← he] at hp
       simp only [] at hp
       rcases hp with hf | hp | hp
